@@ -5,6 +5,7 @@ import json
 from typing import Any, Dict, List
 
 from harness.extract import action_mask as x_mask
+from harness.extract import action_templates as x_templ
 from harness.extract import request_core as x_core
 from harness.extract import request_schema as x_schema
 from harness.extract import request_validators as x_valid
@@ -20,7 +21,10 @@ MANIFEST = {
             "unreachable/failure and an allowed one is never refused; that the mask equals 'target exists and every permission rule on "
             "the path holds'; that action_mask lays the verdicts out by action number for every listing order of the action map "
             "(C11_mask_by_action_number, C11_masked_number_iff_reaches) and that a mask entry depends on nothing but its own action "
-            "(C11_mask_entry_depends_only_on_its_action). Sharing guard verdicts between the entries of one mask (a per-edge memo) is "
+            "(C11_mask_entry_depends_only_on_its_action); with the valuation induced by the regenerated translation of every validator "
+            "__call__ (proved equal to its declarative specification in C05Guards) and the falsy context action_mask passes, bit i = "
+            "'the path of action i exists and every rule on it holds for the options it is given' (C11_mask_bit_iff_rules_hold), and a "
+            "masked-out request has a missing target or a nameable false rule (C11_masked_out_names_a_false_rule). Sharing guard verdicts between the entries of one mask (a per-edge memo) is "
             "modelled and proved equal to the mask for every tree and map IF every rule ignores its options "
             "(C11_memo_sound_of_option_free), refuted for name-reading rules by a decided counterexample (C11_memo_counterexample), and "
             "the regenerated translation of every validator __call__ is classified: node/NIC/service/application/group rules are "
@@ -43,7 +47,7 @@ MANIFEST = {
                  "regenerated shape tables and translated validators; differential rig incl. full and sibling action maps",
     "design_ref": "5/C11",
 }
-MODULES = ["PrimaiteModel.Props.C11", "PrimaiteModel.Props.C11Memo"]
+MODULES = ["PrimaiteModel.Props.C11", "PrimaiteModel.Props.C11Memo", "PrimaiteModel.Props.C11Rules"]
 EXE = "drv_c05"
 MASK_SCEN = ["data_manipulation", "test_primaite_session", "extended_config"]
 
@@ -182,6 +186,16 @@ def env_level(ctx: Ctx):
                                          f"gave a different mask at entries {[i for i in range(len(mask)) if int(mask[i]) != int(again[i])][:6]}"),
                                       {"mode": "mask-pure", **rp0, "seed": ep_seed, "actions": list(taken), "episode": ep, "step": step,
                                        "action_index": 0})
+                if sib is not None:   # how often the history really has siblings in DIFFERENT conditions when the mask is computed
+                    groups: Dict[Any, set] = {}
+                    for i, (ident, opts) in amap.items():
+                        if i >= sib["first"]:
+                            groups.setdefault((ident, opts.get("node_name") or opts.get("target_nodename")), set()).add(int(mask[i]))
+                    split = sorted({g[0].split("-")[1] for g, bits in groups.items() if len(bits) == 2})
+                    ctx.count("siblings:masks-computed")
+                    ctx.count("siblings:action-type-and-node-groups-with-both-bits", sum(1 for bits in groups.values() if len(bits) == 2))
+                    for kind in split:
+                        ctx.count(f"siblings:masks-with-split-{kind}-siblings")
                 snap = rig.Snap(sim._request_manager)
                 with rig.Probe(sim, snap, stub=True) as probe:
                     for i, (ident, opts) in amap.items():
@@ -374,6 +388,7 @@ def run(ctx: Ctx):
     with lean_lock():
         ctx.extract("RequestCore", x_core.emit)
         ctx.extract("ActionMask", x_mask.emit)
+        ctx.extract(x_templ.GEN_NAME, x_templ.emit)    # Props/C11Rules imports Props/C05Guards -> C05Schema -> Gen/ActionTemplates
         ctx.extract(x_schema.GEN_NAME, x_schema.emit)  # Props/C11Memo: on which edges of the tree those rules stand
         ctx.extract(x_valid.GEN_NAME, x_valid.emit)   # Props/C11Memo: which translated rules read their options
         ctx.prove(MODULES, exes=[EXE], leanchecker=ctx.thorough)
